@@ -451,3 +451,17 @@ MANIFEST_TEXT["C16"] = dict(
 
 NOT_CLAIMED = {p: "monitor not built yet in this round (design in DESIGN.md section 6); no claim is made" for p in
                ["C%02d" % i for i in range(1, 21)]}
+
+# ---- workload sizing (applied once, after the per-property tables above).
+# The tables were sized while the monitors were being written; measured on 16 idle cores the quick tier then took 1-30 s and the
+# thorough tier 20-130 s per property, so both are scaled up: quick stays a check one runs on every change (under a minute),
+# thorough is the deep run (several minutes per property).  Enumerated scopes (grids, sweeps, exhaustive histories) are not scaled.
+QUICK_SCALE = {"C01": 4, "C02": 3, "C03": 5, "C04": 3, "C05": 4, "C06": 4, "C07": 3, "C08": 5, "C09": 5, "C11": 5, "C12": 5, "C13": 5, "C14": 4,
+               "C18": 3, "C19": 5, "C20": 4}
+THOROUGH_SCALE = {"C01": 3, "C03": 4, "C04": 3, "C05": 3, "C06": 4, "C07": 6, "C08": 5, "C09": 4, "C11": 2, "C12": 3, "C13": 8, "C14": 3, "C18": 4, "C19": 6, "C20": 3}
+_ENUMERATED = ("exhaustive", "grid", "alpha-sweep")
+for _p, _spec in PROPS.items():
+    for _r in _spec["runs"]:
+        if any(k in _r.get("config", "") for k in _ENUMERATED) or _spec.get("level") == "fault_enumeration":
+            continue
+        _r["cases"] = dict(quick=_r["cases"]["quick"] * QUICK_SCALE.get(_p, 1), thorough=_r["cases"]["thorough"] * THOROUGH_SCALE.get(_p, 1))
